@@ -116,6 +116,12 @@ S["hyb_future_persistent"] = dict(until=5, sims=[H("A", emit_default=2, next_def
 # real-time pacing must not switch off the lazy wait
 S["rt_fast_prod_slow_cons"] = dict(until=3, rt_factor=1, max_budget=0,
                                    sims=[T("A"), T("B")], conns=[C("A", "B", "po", "mi")])
+# hierarchical entities: the consumer's child entity is of another model in which the roles of
+# the attributes are swapped (k.mi triggers, k.ti does not)
+S["child_roles"] = dict(until=4, sims=[T("A"), E("Q", init_event=1, emit=[0, None, 0], next=[1, 1]),
+                                       H("B", child=True)],
+                        conns=[dict(C("A", "B", "po", "ti"), deid="k"),
+                               dict(C("Q", "B", "eo", "mi"), deid="k")])
 # a persistent and an event source into ONE trigger attribute of one entity
 S["hyb_mixed_same_attr"] = dict(until=3, sims=[T("A"), E("Q", init_event=0, emit=[0]),
                                                H("B", next_default=1)],
